@@ -13,7 +13,7 @@ EXTENDS ClientIP, Json, IOUtils
 
 Trace == ndJsonDeserialize(IOEnv.VERIF_TRACE)
 
-VARIABLES l, bad, owed
+VARIABLES cur, l, bad, owed
 tvars == <<cur, l, bad, owed>>
 
 TraceInit == cur = 0 /\ l = 1 /\ bad = << >> /\ owed = FALSE
